@@ -3789,6 +3789,9 @@ class CaseNode(Node):
                     original_backreference[None] = None
                     empty_backreference[None] = None
 
+        if not mergeable_ds:
+            raise IllegalASTStateError("Case statement has no patterns to match (only an else clause)", self)
+
         # Create the merged acceptor
         decider_dfa, corresponding_finish_states = self._merge(mergeable_ds, current_error_handlers[ErrorReasons.NO_MATCH], priorities)
 
